@@ -883,6 +883,26 @@ def _nested_blocks(node: object) -> List[List[object]]:
     return [body] if isinstance(body, list) else []
 
 
+def _exception_classes(nodes: List[object]) -> List[str]:
+    """Return the exception classes named by the ``except`` clauses in ``nodes``, in order."""
+    names: List[str] = []
+    for node in nodes:
+        if isinstance(node, TryStatement):
+            names.extend(h.exception for h in node.handlers if h.exception)
+        for block in _nested_blocks(node):
+            names.extend(_exception_classes(block))
+    return list(dict.fromkeys(names))
+
+
+def _exception_class_decl(name: str) -> str:
+    """Declare the C++ class that ``catch (<name> &)`` refers to (``a.B`` is ``a::B``)."""
+    *spaces, cls = name.split(".")
+    decl = f"struct {cls} {{}};"
+    for space in reversed(spaces):
+        decl = f"namespace {space} {{ {decl} }}"
+    return decl
+
+
 def _emit_block(
     nodes: Iterable[object],
     led_pin: Dict[str, Union[int, str]],
@@ -2612,6 +2632,14 @@ def emit(ast: Program) -> str:
     if setup_body is None and loop_body is None:
         setup_body = getattr(ast, "body", [])
         loop_body = []
+
+    # A Python exception class is not a C++ type: declare every class an
+    # ``except`` clause names, so that ``catch (ValueError &)`` compiles.
+    handled: List[object] = list(setup_body or []) + list(loop_body or [])
+    for fn in getattr(ast, "functions", []):
+        handled.extend(fn.body)
+    for exc_name in _exception_classes(handled):
+        globals_.append(_exception_class_decl(exc_name))
 
     # Pass 1: collect LED declarations to create globals & pinModes in setup()
     pin_mode_emitted: Set[Tuple[str, ...]] = set()
